@@ -27,6 +27,7 @@ import (
 	"sort"
 	"strings"
 	"sync"
+	"sync/atomic"
 	"testing"
 	"time"
 
@@ -712,12 +713,12 @@ func (c *stepConn) Write(p []byte) (int, error) {
 
 type rawConn struct {
 	writeSteps []int // steps during which the client wrote to this connection
-	id       int
-	srv, cli net.Conn
-	mu       sync.Mutex
-	steps    []int // global step index of each request received on this connection
-	saidAt   int   // index into steps of the first response that said close; -1
-	protoErr string
+	id         int
+	srv, cli   net.Conn
+	mu         sync.Mutex
+	steps      []int // global step index of each request received on this connection
+	saidAt     int   // index into steps of the first response that said close; -1
+	protoErr   string
 }
 
 // serveRaw is the raw (non-fasthttp) responder: reads requests with the h1
@@ -783,6 +784,7 @@ func runCliCase(r *mon.Run, i int, c *cliCase) {
 	var mu sync.Mutex
 	var conns []*rawConn
 	var wg sync.WaitGroup
+	var cur atomic.Int32
 	hc := &fasthttp.HostClient{
 		Addr:                "peer.test:80",
 		MaxConns:            8,
@@ -795,9 +797,18 @@ func runCliCase(r *mon.Run, i int, c *cliCase) {
 			mu.Unlock()
 			wg.Add(1)
 			go serveRaw(rc, c, &wg)
-			return b, nil
+			return &stepConn{Conn: b, rc: rc, cur: &cur}, nil
 		},
 	}
+	dials := func() int { mu.Lock(); defer mu.Unlock(); return len(conns) }
+	type stepObs struct {
+		Err         string `json:"err,omitempty"`
+		DialsBefore int    `json:"dials_before"`
+		DialsAfter  int    `json:"dials_after"`
+		ConnsBefore int    `json:"conns_count_before"`
+		ConnsAfter  int    `json:"conns_count_after"`
+	}
+	obs := make([]stepObs, len(c.Steps))
 	var errs []string
 	var panicked any
 	ok := mon.Watchdog(120*time.Second, func() {
@@ -807,6 +818,7 @@ func runCliCase(r *mon.Run, i int, c *cliCase) {
 			}
 		}()
 		for k, st := range c.Steps {
+			cur.Store(int32(k))
 			req := fasthttp.AcquireRequest()
 			resp := fasthttp.AcquireResponse()
 			req.SetRequestURI(fmt.Sprintf("http://peer.test/s%d", k))
@@ -817,8 +829,11 @@ func runCliCase(r *mon.Run, i int, c *cliCase) {
 			if st.ReqClose {
 				req.SetConnectionClose()
 			}
+			obs[k].DialsBefore, obs[k].ConnsBefore = dials(), hc.ConnsCount()
 			err := hc.Do(req, resp)
+			obs[k].DialsAfter, obs[k].ConnsAfter = dials(), hc.ConnsCount()
 			if err != nil {
+				obs[k].Err = err.Error()
 				errs = append(errs, fmt.Sprintf("step %d: %v", k, err))
 			} else if want := fmt.Sprintf("answer-%d", k); string(resp.Body()) != want {
 				errs = append(errs, fmt.Sprintf("step %d: body %q want %q", k, resp.Body(), want))
@@ -827,7 +842,7 @@ func runCliCase(r *mon.Run, i int, c *cliCase) {
 			fasthttp.ReleaseResponse(resp)
 		}
 	})
-	// end of case: every Do has returned, so each connection's request list is final.
+	// end of case: every Do has returned, so each connection's request and write lists are final.
 	mu.Lock()
 	cs := append([]*rawConn(nil), conns...)
 	mu.Unlock()
@@ -842,24 +857,38 @@ func runCliCase(r *mon.Run, i int, c *cliCase) {
 	wg.Wait()
 	hc.CloseIdleConnections()
 	type connLog struct {
-		Conn  int   `json:"conn"`
-		Steps []int `json:"steps"`
+		Conn       int   `json:"conn"`
+		Steps      []int `json:"requests_received_in_steps"`
+		WriteSteps []int `json:"client_wrote_in_steps"`
 	}
 	var logs []connLog
 	for _, rc := range cs {
-		logs = append(logs, connLog{rc.id, rc.steps})
+		logs = append(logs, connLog{rc.id, rc.steps, rc.writeSteps})
 	}
-	pl := map[string]any{"case": c, "connections": logs, "errors": errs}
+	pl := map[string]any{"case": c, "connections": logs, "errors": errs, "steps": obs}
 	if panicked != nil {
 		r.Violation(i, "panic", fmt.Sprintf("HostClient.Do panicked: %v", panicked), pl)
 		return
 	}
-	if len(errs) > 0 {
-		r.Event("skipped_client_errors", 1)
-		r.Inconclusive(fmt.Sprintf("client case %d: %v", i, errs))
-		return
+	keyFor := func(st *cliStep) string {
+		if st.CloseDelimited {
+			return "client-reused-connection-after-close-delimited-body"
+		}
+		exactIdx := -1
+		for y, v := range st.Conn {
+			if v == "close" {
+				exactIdx = y
+			}
+		}
+		switch {
+		case exactIdx < 0:
+			return "client-connection-close-token-not-recognised"
+		case exactIdx < len(st.Conn)-1:
+			return "client-connection-close-line-overridden-by-later-line"
+		}
+		return "client-reused-connection-after-close"
 	}
-	feat := map[string]bool{}
+	violated := false
 	reused := 0
 	for _, rc := range cs {
 		if rc.protoErr != "" {
@@ -870,34 +899,69 @@ func runCliCase(r *mon.Run, i int, c *cliCase) {
 		if len(rc.steps) > 1 {
 			reused += len(rc.steps) - 1
 		}
-		for x, step := range rc.steps {
-			st := c.Steps[step]
-			said := optionIn(st.Conn, "close")
-			if said {
+		for _, step := range rc.steps {
+			if c.Steps[step].saidClose() {
 				r.Event("client_close_responses", 1)
+				if c.Steps[step].CloseDelimited {
+					r.Event("client_close_delimited_responses", 1)
+				}
 			}
-			if said && x+1 < len(rc.steps) {
-				exact, exactIdx := false, -1
-				for y, v := range st.Conn {
-					if v == "close" {
-						exact, exactIdx = true, y
-					}
-				}
-				key := "client-reused-connection-after-close"
-				switch {
-				case !exact:
-					key = "client-connection-close-token-not-recognised"
-				case exactIdx < len(st.Conn)-1:
-					key = "client-connection-close-line-overridden-by-later-line"
-				}
-				r.Violation(i, key, fmt.Sprintf("response to request s%d carried Connection lines %q, yet the client sent request s%d on the same connection", step, st.Conn, rc.steps[x+1]), pl)
+		}
+		if rc.saidAt < 0 {
+			continue
+		}
+		// the first response on this connection that said close was given in step `said`:
+		// the client must not write to this connection in any later step (successfully or not).
+		said := rc.steps[rc.saidAt]
+		if obs[said].Err != "" {
+			continue // the client did not accept that response: nothing to demand
+		}
+		st := &c.Steps[said]
+		for _, ws := range rc.writeSteps {
+			if ws > said {
+				violated = true
+				r.Violation(i, keyFor(st), fmt.Sprintf("response to request s%d (Connection lines %q, body delimited by close: %v) said close, yet the client wrote request s%d to the same connection", said, st.Conn, st.CloseDelimited, ws), pl)
+				break
 			}
 		}
 	}
+	// pool accounting: a Do whose response said close must leave one connection less counted than
+	// (count before + connections dialled during the call).
+	for k := range c.Steps {
+		st := &c.Steps[k]
+		if !st.saidClose() || obs[k].Err != "" {
+			continue
+		}
+		r.Event("client_conns_count_checked", 1)
+		if lim := obs[k].ConnsBefore + (obs[k].DialsAfter - obs[k].DialsBefore) - 1; obs[k].ConnsAfter > lim {
+			violated = true
+			key := keyFor(st)
+			if key == "client-reused-connection-after-close" {
+				key = "client-kept-connection-after-close"
+			}
+			r.Violation(i, key, fmt.Sprintf("after the response to s%d (Connection lines %q, body delimited by close: %v) HostClient.ConnsCount()=%d (before the call %d, dialled during the call %d): the connection is still counted as usable", k, st.Conn, st.CloseDelimited, obs[k].ConnsAfter, obs[k].ConnsBefore, obs[k].DialsAfter-obs[k].DialsBefore), pl)
+		}
+		// the follow-up must go to a freshly dialled connection
+		if k+1 < len(c.Steps) && obs[k+1].Err == "" && obs[k].ConnsAfter == 0 {
+			r.Event("client_followup_dials_checked", 1)
+			if obs[k+1].DialsAfter == obs[k+1].DialsBefore {
+				violated = true
+				r.Violation(i, keyFor(st), fmt.Sprintf("request s%d after a response that said close (s%d) was sent without dialling a new connection", k+1, k), pl)
+			}
+		}
+	}
+	if len(errs) > 0 && !violated {
+		r.Event("skipped_client_errors", 1)
+		r.Inconclusive(fmt.Sprintf("client case %d: %v", i, errs))
+		return
+	}
 	r.Event("client_reuses", reused)
+	feat := map[string]bool{}
 	for _, st := range c.Steps {
 		t := "none"
 		switch {
+		case st.CloseDelimited:
+			t = "close-delimited"
 		case optionIn(st.Conn, "close") && len(st.Conn) == 1 && st.Conn[0] == "close":
 			t = "close"
 		case optionIn(st.Conn, "close"):
@@ -905,7 +969,7 @@ func runCliCase(r *mon.Run, i int, c *cliCase) {
 		case len(st.Conn) > 0:
 			t = "other"
 		}
-		feat[fmt.Sprintf("%s/v10=%v/reqclose=%v/ch=%v", t, st.V10, st.ReqClose, st.Chunked)] = true
+		feat[fmt.Sprintf("%s/v10=%v/reqclose=%v/ch=%v/post=%v", t, st.V10, st.ReqClose, st.Chunked, st.Post)] = true
 	}
 	var fl []string
 	for k := range feat {
@@ -914,7 +978,7 @@ func runCliCase(r *mon.Run, i int, c *cliCase) {
 	sort.Strings(fl)
 	r.Case(fmt.Sprintf("client n=%d %v", len(c.Steps), fl), true)
 	if r.WantSample() && i%7 == 3 {
-		r.Sample(map[string]any{"half": "client", "case": c, "connections": logs})
+		r.Sample(map[string]any{"half": "client", "case": c, "connections": logs, "steps": obs})
 	}
 }
 
@@ -923,11 +987,12 @@ func runCliCase(r *mon.Run, i int, c *cliCase) {
 func TestC10(t *testing.T) {
 	r := mon.Start(t, "C10")
 	defer r.Finish()
-	r.Rule("server case = history of 1-6 complete requests on one scripted connection (HTTP/1.0|1.1 x GET/HEAD/POST x 0-2 Connection lines over {close, Close, CLOSE, keep-alive, upgrade, foo, lists with and without close, odd spacing}) x DisableKeepalive x MaxRequestsPerConn 0-3 x ReduceMemoryUsage x handler close call (5 APIs) on a PRNG-chosen request x 6 fragmentation plans; client case = 2-5 sequential HostClient.Do calls against a raw responder whose Connection lines vary per response; distinct = feature vector (sizes, settings, set of version:token classes); non-trivial = at least two requests on the connection or a must-close condition present")
+	r.Rule("server case = history of 1-6 complete requests on one scripted connection (HTTP/1.0|1.1 x GET/HEAD/POST x 0-2 Connection lines over {close, Close, CLOSE, keep-alive, upgrade, foo, lists with and without close, odd spacing}) x DisableKeepalive x MaxRequestsPerConn 0-3 x ReduceMemoryUsage x handler close call (5 APIs) on a PRNG-chosen request x per-request timeout path (TimeoutError, TimeoutErrorWithCode, TimeoutErrorWithResponse with/without close, TimeoutHandler with a gated, certainly late inner handler) x 6 fragmentation plans; client case = 2-6 sequential HostClient.Do calls against a raw responder whose Connection lines vary per response, incl. bodies delimited by the responder closing the socket (no Content-Length; HTTP/1.1 close and HTTP/1.0) followed by a POST; distinct = feature vector (sizes, settings, set of version:token classes); non-trivial = at least two requests on the connection or a must-close condition present")
 	r.Assume("netx.Scripted: a READ or STARVE event after the last response byte means the server kept the connection and asked for more; CLOSE without it means it closed (ServeConn is single-threaded, so this is exact)")
 	r.Assume("h1 reference parser reads the raw response fields; `close` is looked up as a case-insensitive member of the comma separated option list over all Connection field lines (RFC 9110 7.6.1), for requests and responses alike")
 	r.Assume("closing when no must-close condition holds is allowed (counted as closed_without_stated_reason); shutdown without CloseOnShutdown is observed but not judged")
-	r.Assume("client half: calls are sequential, so a second request on a raw connection after a close-saying response is a reuse by the pool; client errors make a case inconclusive")
+	r.Assume("client half: calls are sequential; the client-side end of every dialled connection records in which step each Write happens, so a Write in a later step than the one whose response said close is a reuse by the pool (even if the write fails); HostClient.ConnsCount and the dial counter are read around every call; client errors without a refutation make a case inconclusive")
+	r.Assume("a response built before a Timeout* call is replaced by the timeout response, so only a close set on the response passed to TimeoutErrorWithResponse counts as set by the handler; the TimeoutHandler action uses a 1 ms timeout with an inner handler that is released only after ServeConn returned (wall-clock only delays, never decides)")
 
 	nSrv := r.N(20_000, 500_000)
 	nCli := r.N(3_000, 60_000)
@@ -998,5 +1063,8 @@ func TestC10(t *testing.T) {
 		r.Require("client_requests_observed", nCli*2)
 		r.Require("client_close_responses", nCli/4)
 		r.Require("client_reuses", nCli/10)
+		r.Require("client_close_delimited_responses", nCli/4)
+		r.Require("client_conns_count_checked", nCli/2)
+		r.Require("timeout_responses_judged", nSrv/10)
 	}
 }
